@@ -212,10 +212,12 @@ Import Model.Stats Model.ReqSM Proofs.ReqSM.
    direct run's exit status, stdout, stderr and output files; in particular a hit runs no compiler and replays what
    the direct run would produce.  Hypotheses: the two keys are sound ([consistent], the subject of C02/C04), the cache
    only holds what earlier requests stored ([Inv], an invariant of every history: C09_history_transparent), a compiler
-   that exits 0 has written its outputs ([sane]), the output directory is writable. *)
+   that exits 0 has written its outputs ([sane]), the output directory is writable, and - since Model/ReqSM.v models
+   panics as fault values - no fault value or oracle step is a panic ([calm]; a panicking task is answered with
+   "encountered fatal error", see C09_internal_fault_reported). *)
 Theorem C01_hit_replays_stored :
   forall w st t f cc,
-  consistent w -> Inv w st -> sane (w t) -> f_outdir_ok f = true ->
+  consistent w -> Inv w st -> sane (w t) -> f_outdir_ok f = true -> calm f (w t) ->
   r_outcome (snd (execute f cc (w t) st)) = Some OHit ->
   r_cc_runs (snd (execute f cc (w t) st)) = 0%N /\
   exists s so se, r_client (snd (execute f cc (w t) st)) = CFinished s so se /\
@@ -223,15 +225,16 @@ Theorem C01_hit_replays_stored :
 Proof. exact Proofs.ArgsReq.hit_replays_stored. Qed.
 Print Assumptions C01_hit_replays_stored.
 
-(* a failing build is handed to the client verbatim ([transparent]) and never stored *)
+(* a failing build is handed to the client verbatim ([transparent], under [calm] as above: the ReqSM transparency theorem
+   needs it since panics are fault values) and, calm or not, never stored *)
 Theorem C01_failure_verbatim_never_stored :
   forall w st t f cl cc,
   consistent w -> Inv w st -> sane (w t) -> f_outdir_ok f = true ->
-  transparent (w t) (snd (fst (request f cl cc (w t) st))) /\
+  (calm f (w t) -> transparent (w t) (snd (fst (request f cl cc (w t) st)))) /\
   (fst (fst (fst (direct (w t)))) <> 0%N -> cs_res (fst (fst (request f cl cc (w t) st))) = cs_res st).
 Proof.
   intros w st t f cl cc HC HI HS HO. split.
-  - apply request_transparent; assumption.
+  - intros HCalm. apply request_transparent; assumption.
   - intros Hd. apply failed_never_stored; assumption.
 Qed.
 Print Assumptions C01_failure_verbatim_never_stored.
